@@ -19,6 +19,24 @@ CLAIMED = {
         "Trusted: the AST matcher; handlers do not mutate Params; ambiguous decompositions (spanning classes) are only checked for membership.",
         "DESIGN.md section 4 C02",
     ),
+    "C04": (
+        "runtime monitoring: trace-specification monitor - enter/leave events recorded by instrumented handlers are compared with the trace predicted by a reference scope model + onion interpreter over generated registration programs",
+        "For every route of every generated registration program (nested Group/Controller, Use at any point incl. after routes, variadic and later Route.Use middleware, NotFound/NotAllowed, handlers calling Next 0/1/2 times) the recorded per-request trace must equal the predicted one; also for not-found and wrong-method requests.",
+        "Trusted: scope model and onion interpreter in harness/mon/prog.go; chains stay well below the handler limit (C05 covers long chains).",
+        "DESIGN.md section 4 C04",
+    ),
+    "C05": (
+        "runtime monitoring: trace-specification monitor with a specification-level interpreter of Next/Abort; IsAborted() sampled at entry, around the abort call and at leave of every handler; small-scope exhaustive chain shapes + sampled long chains up to the handler limit",
+        "All chains of length 1..7 (quick) / 1..9 (thorough) x aborter position x 4 abort APIs x before/after/without Next x extra Next x all subsets of Next-calling handlers x committed-or-not, plus sampled chains of 9..63 handlers: no handler starts after the abort, suspended handlers resume, IsAborted is false before / true after, AbortWithStatus decides the status unless already committed.",
+        "Trusted: the 30-line specification interpreter in harness/mon/c05.go. Total chain <= 63. One observation class is a listed known finding (KF1, exactly 63 handlers).",
+        "DESIGN.md section 4 C05",
+    ),
+    "C12": (
+        "runtime monitoring: reference scope-model monitor over generated registration programs with probe routes after every Group return; Route.Path()/Handlers() observed at registration and at the end, per-route request traces, negative probes without the prefix",
+        "Every route (incl. Controller registrations and probe routes registered right after each Group return) must carry exactly the concatenated prefixes and exactly the middleware of its enclosing groups in effect at registration; reachable under the full path with exactly that chain and not under the bare path.",
+        "Trusted: scope model in harness/mon/prog.go; clean non-root prefixes ('' and '/' only at top level).",
+        "DESIGN.md section 4 C12",
+    ),
     "C06": (
         "runtime monitoring: reference-model monitor of the documented fallback order (direct, HEAD->GET, '/*', 405/Allow, 404, InterceptAll) run in lock-step with Match and ServeHTTP over generated tables x option sets",
         "Every probe's outcome (route / allowed set via Match; status, Allow header, body, CTXAllowedMethods via ServeHTTP, default and custom fallback handlers) is compared with an executable statement of the resolution order over all 2^k option combinations sampled per table.",
